@@ -306,7 +306,9 @@ def _oracle(case, ins: Instrument) -> list[Failure]:
             what = f"lines {sorted(i for _, i in new_failed)} failed" if new_failed else "an instruction failed"
             if ms != "Error":
                 fails.append(Failure("failed-instruction-without-error-status", case, f"{what}, Method Status = {ms!r}"))
-            elif sysst != "Paused":
+            elif sysst != "Paused" and not e._runstate_stopping:
+                # (a Stop that started in the same command phase cancels a timed Pause of the method, which unpauses:
+                #  the run is stopping, one tick later it is Stopped)
                 fails.append(Failure("failed-instruction-did-not-pause", case, f"{what}, System State = {sysst!r}"))
         if new_failed and sysst not in ("Stopped", "Restarting"):
             mstate = e.method_manager.get_method_state()
